@@ -120,7 +120,7 @@ func init() {
 		}
 		ctx.Count("exhaustive_maps", int64(maps))
 		// random part: full-size, non-monotonic, constant, single-entry maps
-		nr := ctx.N(400, 40000)
+		nr := ctx.N(6000, 80000)
 		for i := 0; i < nr; i++ {
 			r := ctx.Rng
 			m := map[int]int{}
@@ -152,7 +152,7 @@ func init() {
 			c12CheckMap(ctx, m, kind)
 		}
 		// direct calls of the two helpers against the reference
-		nd := ctx.N(2000, 200000)
+		nd := ctx.N(40000, 400000)
 		for i := 0; i < nd; i++ {
 			r := ctx.Rng
 			m := map[int]int{}
